@@ -206,3 +206,59 @@ package eval
 //@   exit [reverse-order] forall k int :: 0 <= k && k < ncalls ==> callidx(k) == len(defers) - 1 - k
 //@   exit [nil-iff-all-succeeded] (exc === nil) == (forall k int :: 0 <= k && k < ncalls ==> callres(k) === nil)
 //@   exit [first-exception-reported] !(exc === nil) ==> (exists k int :: 0 <= k && k < ncalls && callres(k) === exc && (forall j int :: 0 <= j && j < k ==> callres(j) === nil))
+
+// set: the old value is saved BEFORE the variable is set, the variable is set
+// exactly once, and the restore function is handed to the collector exactly when
+// the assignment succeeded - and it is the function that was saved.
+//@ func set
+//@   props C21
+//@   nosafety
+//@   noescape rc
+//@   log fv save Var.Set
+//@   exit [no-collector-no-save] rc === nil ==> ncallsof("save") == 0 && ncallsof("fv") == 0
+//@   exit [saved-before-set] !(rc === nil) ==> callis(0, "save") && callis(1, "Var.Set")
+//@   exit [set-exactly-once] ncallsof("Var.Set") == 1 && callis(ncallsof("save"), "Var.Set")
+//@   exit [restore-registered-iff-set-succeeded] !(rc === nil) ==> ncallsof("fv") <= 1 && ((ncallsof("fv") == 1) == (callerr(1) === nil))
+//@   exit [registers-the-saved-restore] !(rc === nil) && ncallsof("fv") == 1 ==> callis(2, "fv") && callfn(2) === rc && callarg(2) === callres(0)
+//@   exit [failure-reported] (result === nil) == (callerr(ncallsof("save")) === nil)
+
+//@ func save
+//@   trusted
+//@   pure
+
+//@ func doAssign
+//@   props C21
+//@   nosafety
+//@   noescape rc
+
+// A temporary assignment registers its restore functions as frame defers; an
+// ordinary assignment registers nothing.
+//@ func assignOp.exec
+//@   props C21
+//@   nosafety
+//@   log doAssign
+//@   exit [one-assignment] ncalls == 1
+
+// with: every restore function collected during the assignments runs exactly
+// once, in reverse order, on every way out (failed assignment, body exception,
+// normal completion); an exception of the body or of an assignment is kept, an
+// exception of a restore function is reported only if there was none.
+//@ func withOp.exec
+//@   props C21
+//@   nosafety
+//@   log fv
+//@   results opExc
+//@   loop 1 invariant -1 <= i && i < len(restoreFuncs)
+//@   loop 1 invariant ncalls == len(restoreFuncs) - 1 - i
+//@   loop 1 invariant forall k int :: 0 <= k && k < ncalls ==> callidx(k) == len(restoreFuncs) - 1 - k
+//@   loop 1 invariant !(returned === nil) ==> opExc === returned
+//@   loop 1 invariant returned === nil ==> ((opExc === nil) == (forall k int :: 0 <= k && k < ncalls ==> callres(k) === nil))
+//@   loop 2 invariant ncalls == 0
+//@   exit [every-restore-once] ncalls == len(restoreFuncs)
+//@   exit [reverse-order] forall k int :: 0 <= k && k < ncalls ==> callidx(k) == len(restoreFuncs) - 1 - k
+//@   exit [body-exception-wins] !(returned === nil) ==> opExc === returned
+//@   exit [restore-exception-only-if-body-succeeded] returned === nil ==> ((opExc === nil) == (forall k int :: 0 <= k && k < ncalls ==> callres(k) === nil))
+
+//@ func execLambdaOp
+//@   trusted
+//@   pure
